@@ -163,6 +163,34 @@ Example C05_witness_twice : inv_ok (bs "ACGU"%bs) = true /\ inv_ok (bs "UUU"%bs)
   Bstr (t2u (complement (bs "AAA"%bs))) = "UUU"%bs /\ Bstr (construct (bs "acgu-n"%bs)) = "ACGU-N"%bs.
 Proof. exact witness_twice. Qed.
 
+(* rc position by position: symbol i of the result is the complement symbol of symbol len-1-i *)
+Theorem C05_rc_positionwise : forall s i, i < length s ->
+  nth_error (rc s) i = option_map (cc (has cU s)) (nth_error s (length s - 1 - i)).
+Proof. exact rc_positionwise. Qed.
+Print Assumptions C05_rc_positionwise.
+
+(* complement and concatenation (+=, slices): pieces are complemented independently exactly when the RNA flag agrees or the
+   U-free piece contains no A (the two symbol maps differ on A and U only) *)
+Theorem C05_complement_app : forall a b,
+  complement (a ++ b) = map (cc (has cU a || has cU b)) a ++ map (cc (has cU a || has cU b)) b /\
+  (complement (a ++ b) = complement a ++ complement b <->
+   (has cU a = has cU b \/ (has cU a = true /\ has cA b = false) \/ (has cU b = true /\ has cA a = false))) /\
+  (forall c, byte_eqb (cc true c) (cc false c) = negb (byte_eqb c cA || byte_eqb c cU)).
+Proof. exact (fun a b => conj (complement_app a b) (conj (complement_app_iff a b) cc_differ)). Qed.
+Print Assumptions C05_complement_app.
+
+(* the alphabets are closed: DNA strings stay DNA strings, RNA strings (with a U, no T) stay RNA-alphabet strings *)
+Theorem C05_closed_alphabets : forall s,
+  (forallb in_alpha s = true -> forallb in_alpha (complement s) = true /\ forallb in_alpha (rc s) = true) /\
+  (forallb in_rna s = true -> has cU s = true -> forallb in_rna (complement s) = true /\ forallb in_rna (rc s) = true).
+Proof. exact closed_alphabets. Qed.
+Print Assumptions C05_closed_alphabets.
+
+Example C05_witness_app : Bstr (complement (bs "AC"%bs ++ bs "GU"%bs)) = "UGCA"%bs /\
+  Bstr (complement (bs "AC"%bs) ++ complement (bs "GU"%bs)) = "TGCA"%bs /\
+  nth_error (rc (bs "AACGU"%bs)) 1 = Some "C"%byte.
+Proof. exact witness_app. Qed.
+
 (* ---- round 7: objects, baskets, histories ---- *)
 (* "for seq in self: seq.f()": an object is operated on once per listing in the basket *)
 Theorem C05_basket_loop : forall f b h i, i < length h ->
